@@ -8,15 +8,39 @@ Soundness is stated as a reduction to collision finding over an EXPLICIT finite 
 (`t.pathInputs H b ++ verifyInputs H ps b`: what the honest trie hashes on the path of b, and what the verifier
 recomputes), so that no unsatisfiable "H is injective" hypothesis is needed:
 
+  C10_complete     every honest proof verifies to (hash of the trie, value of the block's owner) — all tries, all blocks
   C10_sound        (def) accepted proof for the trusted root ⇒ it returns the true owner's value, or a collision is
                    exhibited among the listed inputs
   C10_sound_false_weights / C10_sound_false_kind
                    the full statement is FALSE: two concrete forged proofs (toy hash, no collision among the inputs)
                    — the open findings C10-forged-child-weights and C10-node-kind-confusion
 -/
-import Verif.Model.WmptToy
+import Verif.Lemmas.WmptProof
+import Verif.Lemmas.WmptSpec
 namespace Verif.Props.C10
 open Verif.Wmpt
+
+/-- Completeness: for every trie (any shape, any size), every hash function with 32-byte outputs and every block
+    number 1..total weight, the honest proof verifies; verification yields the hash of the trie and the value of the
+    entry whose cumulative-weight interval contains the block. -/
+theorem C10_complete (H : Bytes → Bytes) (hlen : ∀ x, (H x).length = 32) (t : PT) (b : Nat)
+    (hb1 : 1 ≤ b) (hb : b ≤ t.weight) (hw : t.weight < 2 ^ 64) :
+    ∃ k v, ownerSpec t.entries b = some (k, v) ∧
+      verifyPairs H ((t.proofPairs H b).map PairD.ok) b = .ok (t.hash H, v) := by
+  obtain ⟨n, k, v, ho, hv, _, hh, _⟩ := verify_honest H hlen t b [] hb1 hb hw
+  rw [owner_eq_ownerSpec t b hb1 hb] at ho
+  refine ⟨k, v, ho, ?_⟩
+  simp only [List.append_nil] at hv
+  have hne : (t.proofPairs H b).map PairD.ok ≠ [] := by
+    intro he
+    rw [he] at hv
+    simp [verifyProof] at hv
+  simp [verifyPairs, hne, hv, hh]
+
+/-- non-vacuity of `C10_complete`: the two-key trie `wt` below, toy hash, block 3 -/
+example : ∃ k v, ownerSpec (PT.branch (fun i =>
+      if i = 1 then PT.short [1] (.value [0xaa] 2) else if i = 2 then .short [1] (.value [0xbb] 2) else .none)).entries 3 = some (k, v) ∧ v = [0xbb] :=
+  ⟨[2, 1], [0xbb], by decide, rfl⟩
 
 /-- full soundness statement -/
 def C10_sound : Prop :=
